@@ -8,7 +8,7 @@ import importlib
 import itertools
 from fractions import Fraction
 
-from symx.core import AND, OR, NOT, IMPLIES, ITE, IFF, SNum, ssum, sabs, sym_float, sym_int, sym_sqrt
+from symx.core import AND, OR, NOT, IMPLIES, ITE, IFF, SNum, ssum, sabs, sym_float, sym_int, sym_sqrt, sym_sqrt_weak
 from symx.stubs import sym_array
 
 PROPERTY = "C03"
@@ -17,8 +17,8 @@ FUNCTIONS = ["solvor.simplex.solve_lp", "solvor.simplex._phase1", "solvor.simple
              "solvor.interior_point.solve_lp_interior (exit tests from an arbitrary interior state; see bounds)"]
 TAU = Fraction(1, 10 ** 7)
 BOUNDS = {
-    "quick": "simplex: every A in {-1,0,1}^(m x n) for m,n<=2 and a VERIF_SEED sample of A in {-2..2}^(m x n) up to 3x3 (structure), minimize and "
-             "maximize; pass b: b unbounded Reals with c from {-1,0,1,2}^n sampled; pass c: c unbounded Reals with b from {-2..3}^m sampled; "
+    "quick": "simplex: every A in {-1,0,1}^(m x n) for m,n<=2 and a VERIF_SEED sample (152) of A in {-2..2}^(m x n) up to 3x3, minimize and "
+             "maximize, 2 sampled grid vectors per pass; pass b: b unbounded Reals, c from {-1,0,1,2}^n sampled; pass c: c = k/8 with k unbounded Ints, b from {-2..3}^m sampled; "
              "tolerance 1e-7 on feasibility/objective (eps=1e-10 guards are executed exactly); max_iter in 0..3 on a sample. "
              "interior point: FEASIBLE / MAX_ITER / OPTIMAL exits from an arbitrary interior state for 1x1..2x2 (see evidence.assumptions)",
     "thorough": "every A in {-2..2}^(m x n), m,n<=2, all c / b grid points; 3x2, 2x3, 3x3 samples x10; bilinear pass (b and c symbolic) on 2x2 {-1,0,1}",
@@ -28,14 +28,15 @@ OUTSIDE = ("A beyond the enumerated/sampled integer matrices; badly scaled data;
 ASSUMPTIONS = [
     "floats modelled as exact reals; array('d') replaced by a list shim (symx.stubs.sym_array) in solvor.simplex",
     "verdicts are judged with tolerance tau=1e-7: OPTIMAL => x is tau-feasible, objective = c.x within tau, no exactly feasible y is better by more than tau; "
-    "INFEASIBLE => the exact feasible set is empty; UNBOUNDED => tau-feasible and a recession direction with improving objective exists; MAX_ITER only if iterations == max_iter",
+    "INFEASIBLE => the exact feasible set is empty; UNBOUNDED => the returned point is tau-feasible and the dual is infeasible (an improving recession direction exists); MAX_ITER only if iterations == max_iter",
+    "pass b: b ranges over ALL reals (eps-band effects on the right-hand side are absorbed by tau); pass c: symbolic costs are multiples of 1/8 (unbounded numerators): the property quantifies over well-scaled LPs with integer or small rational data; arbitrary reals would include costs inside the solver's eps=1e-10 band",
     "interior point: _initialize is replaced by a stub returning an ARBITRARY state with x,z >= eps and |x|,|y|,|z| <= 100 (the loop's invariant; well-scaled hypothesis); _solve_newton cut",
 ]
-STUBS = ["solvor.simplex.array := list shim", "solvor.interior_point._initialize := arbitrary interior state", "solvor.interior_point.sqrt := symbolic sqrt",
+STUBS = ["solvor.simplex.array := list shim", "solvor.interior_point._initialize := arbitrary interior state", "solvor.interior_point.sqrt := sound linear over-approximation (fresh t >= |r_i| for each squared residual)",
          "solvor.interior_point._solve_newton := cut"]
-GOALS = {"quick": ["lp.optimal", "lp.infeasible", "lp.unbounded", "lp.phase1", "lp.maximize", "lp.max_iter", "ip.feasible_exit"],
+GOALS = {"quick": ["lp.optimal", "lp.infeasible", "lp.unbounded", "lp.phase1", "lp.maximize", "lp.max_iter", "ip.feasible_exit", "ip.optimal_exit"],
          "thorough": ["lp.optimal", "lp.infeasible", "lp.unbounded", "lp.phase1"]}
-OPTS = {"quick": {"qto": 20000, "path_wall": 60.0}, "thorough": {"qto": 30000, "path_wall": 120.0}}
+OPTS = {"quick": {"qto": 8000, "path_wall": 40.0, "arith_solver": 2}, "thorough": {"qto": 30000, "path_wall": 120.0, "arith_solver": 2}}
 
 
 def K(v):
@@ -47,22 +48,78 @@ def dot(a, b):
     return ssum(x * y for x, y in zip(a, b))
 
 
+def _solve_square(M, r):
+    """Gaussian elimination over Fractions; returns solution or None if singular."""
+    n = len(M)
+    M = [[Fraction(v) for v in row] + [Fraction(rr)] for row, rr in zip(M, r)]
+    for col in range(n):
+        piv = next((i for i in range(col, n) if M[i][col] != 0), None)
+        if piv is None:
+            return None
+        M[col], M[piv] = M[piv], M[col]
+        pv = M[col][col]
+        M[col] = [v / pv for v in M[col]]
+        for i in range(n):
+            if i != col and M[i][col] != 0:
+                f = M[i][col]
+                M[i] = [a - f * b for a, b in zip(M[i], M[col])]
+    return [M[i][n] for i in range(n)]
+
+
+def vertices_and_rays(A, b):
+    """Vertices of {y>=0, A y<=b} and extreme rays of its recession cone {d>=0, A d<=0} (exact, Fractions)."""
+    m, n = len(A), len(A[0])
+    rows = [([Fraction(v) for v in A[i]], Fraction(b[i])) for i in range(m)]
+    rows += [([Fraction(-1 if j == k else 0) for k in range(n)], Fraction(0)) for j in range(n)]  # -y_j <= 0
+    verts = []
+    for idx in itertools.combinations(range(m + n), n):
+        sol = _solve_square([rows[i][0] for i in idx], [rows[i][1] for i in idx])
+        if sol is None:
+            continue
+        if all(sum(a * y for a, y in zip(rw, sol)) <= rh for rw, rh in rows) and sol not in verts:
+            verts.append(sol)
+    rays = []
+    if n == 1:
+        cands = [[Fraction(1)]]
+    else:
+        cands = []
+        for idx in itertools.combinations(range(m + n), n - 1):
+            sub = [rows[i][0] for i in idx]
+            # null space of sub ((n-1) x n): try fixing each coordinate to 1
+            for fix in range(n):
+                M = sub + [[Fraction(1 if k == fix else 0) for k in range(n)]]
+                sol = _solve_square(M, [0] * (n - 1) + [1])
+                if sol is not None:
+                    cands.append(sol)
+                    cands.append([-v for v in sol])
+                    break
+    for d in cands:
+        if any(v != 0 for v in d) and all(sum(a * y for a, y in zip(rw, d)) <= 0 for rw, _rh in rows):
+            sc = max(abs(v) for v in d)
+            dn = [v / sc for v in d]
+            if dn not in rays:
+                rays.append(dn)
+    return verts, rays
+
+
 def h_lp(s, A, mode, fixed, minimize, max_iter=None):
     """mode 'b': b symbolic, c=fixed; mode 'c': c symbolic, b=fixed; mode 'bc': both symbolic."""
     Status = importlib.import_module("solvor.types").Status
     mod = importlib.import_module("solvor.simplex")
     m, n = len(A), len(A[0])
     sym = s.symbolic
+    # "well-scaled, small rational data": symbolic entries are k/8 with k an UNBOUNDED Int (so no value falls inside an eps band)
+    def q8(name):
+        k = s.int(name)
+        return k / 8 if s.symbolic else k / 8.0
     if mode in ("b", "bc"):
-        b = [s.real("b%d" % i) for i in range(m)]
+        b = [s.real("b%d" % i) for i in range(m)]  # all reals: eps-band effects on the rhs stay within tau (see ASSUMPTIONS)
     else:
         b = [K(v) if sym else float(v) for v in fixed]
     if mode in ("c", "bc"):
-        c = [s.real("c%d" % j) for j in range(n)]
+        c = [q8("c8_%d" % j) for j in range(n)]
     else:
-        c = [K(v) if sym else float(v) for v in (fixed if mode == "b" else fixed)]
-    if mode == "bc":
-        pass
+        c = [K(v) if sym else float(v) for v in fixed]
     Ain = [[K(v) if sym else float(v) for v in row] for row in A]
     s.stub(mod, array=sym_array)
     kw = {}
@@ -76,21 +133,27 @@ def h_lp(s, A, mode, fixed, minimize, max_iter=None):
     sign = 1 if minimize else -1
     y = [s.fresh_real("y%d" % j) for j in range(n)]
     feas_y = AND([yy >= 0 for yy in y] + [dot(A[i], y) <= b[i] for i in range(m)])
+    if mode == "c":
+        verts, rays = vertices_and_rays(A, fixed)      # the polyhedron is concrete in this pass: obligations are linear in c
+    else:
+        _v, rays = vertices_and_rays(A, [0] * m)       # recession cone does not depend on b
+        verts = None
     if st == Status.MAX_ITER:
         s.check(max_iter is not None and res.iterations == max_iter, "lp.max_iter_only_when_exhausted", detail=res.iterations)
         s.goal("lp.max_iter")
         return
     if st == Status.INFEASIBLE:
-        s.check(NOT(feas_y), "lp.infeasible_only_if_no_feasible_point")
+        if mode == "c":
+            s.check(len(verts) == 0, "lp.infeasible_only_if_no_feasible_point", detail=repr(verts[:1]))
+        else:
+            s.check(NOT(feas_y), "lp.infeasible_only_if_no_feasible_point")
         s.goal("lp.infeasible")
+        s.goal("lp.phase1")
         return
     if st == Status.UNBOUNDED:
-        # a feasible point exists (tau-relaxed) and some direction d>=0, A d<=0 improves the objective
-        d = [s.fresh_real("d%d" % j) for j in range(n)]
-        ray = AND([dd >= 0 for dd in d] + [dot(A[i], d) <= 0 for i in range(m)] + [sign * dot(c, d) < 0])
-        relaxed = AND([yy >= 0 for yy in y] + [dot(A[i], y) <= b[i] + tau for i in range(m)])
-        # "exists" obligations: validity of NOT(exists) must be refuted -> we check satisfiability via the negation trick:
-        s.check_exists(y + d, AND(ray, relaxed), "lp.unbounded_only_if_feasible_and_improving_ray")
+        s.check(x is not None and len(x) == n, "lp.solution_shape")
+        s.check(AND([xx >= -tau for xx in x] + [dot(A[i], x) <= b[i] + tau for i in range(m)]), "lp.unbounded_point_is_feasible")
+        s.check(OR([sign * dot(c, r) < 0 for r in rays]), "lp.unbounded_only_if_improving_ray_exists")
         s.goal("lp.unbounded")
         return
     s.check(st == Status.OPTIMAL, "lp.status_known", detail=str(st))
@@ -100,7 +163,12 @@ def h_lp(s, A, mode, fixed, minimize, max_iter=None):
     s.check(AND([xx >= -tau for xx in x] + [dot(A[i], x) <= b[i] + tau for i in range(m)]), "lp.optimal_point_is_feasible")
     cx = dot(c, x)
     s.check(AND(res.objective - cx <= tau, cx - res.objective <= tau), "lp.objective_is_c_dot_x")
-    s.check(IMPLIES(feas_y, sign * dot(c, y) >= sign * res.objective - tau), "lp.no_feasible_point_is_better")
+    if mode == "c":
+        s.check(AND([sign * dot(c, v) >= sign * res.objective - tau for v in verts] + [sign * dot(c, r) >= -tau for r in rays]),
+                "lp.no_feasible_point_is_better")
+    else:
+        s.check(IMPLIES(feas_y, sign * dot(c, y) >= sign * res.objective - tau), "lp.no_feasible_point_is_better")
+        s.check(AND([sign * dot(c, r) >= -tau for r in rays]), "lp.optimal_only_if_bounded")
     s.goal("lp.optimal")
     if not minimize:
         s.goal("lp.maximize")
@@ -128,7 +196,7 @@ def h_ip(s, A, c, minimize, max_iter):
         s.cut("Newton step not modelled")
 
     if s.symbolic:
-        s.stub(mod, _initialize=init_stub, _solve_newton=newton_cut, sqrt=sym_sqrt)
+        s.stub(mod, _initialize=init_stub, _solve_newton=newton_cut, sqrt=sym_sqrt_weak)
     else:
         s.patch(mod, _initialize=lambda *a, **k: ([float(v) for v in xs], [float(v) for v in ys], [float(v) for v in zs]))
     Ain = [[float(v) for v in row] for row in A]
@@ -139,10 +207,15 @@ def h_ip(s, A, c, minimize, max_iter):
     if st in (Status.FEASIBLE, Status.OPTIMAL):
         tol = 0.01 if st == Status.FEASIBLE else 1e-6
         s.check(x is not None and len(x) == n, "ip.solution_shape")
-        s.check(AND([xx >= 0 for xx in x] + [dot(A[i], x) <= b[i] + tol * (1 + 0) + 1e-9 for i in range(m)]),
+        s.check(AND([xx >= 0 for xx in x] + [dot(A[i], x) <= b[i] + tol + 1e-9 for i in range(m)]),
                 "ip.%s_point_is_primal_feasible" % st.name.lower())
         cx = dot(c, x)
         s.check(AND(res.objective - cx <= 1e-9, cx - res.objective <= 1e-9), "ip.objective_is_c_dot_x")
+        if st == Status.OPTIMAL and m * n == 1:
+            sign = 1 if minimize else -1
+            yv = [s.fresh_real("y%d" % j) for j in range(n)]
+            feas = AND([v >= 0 for v in yv] + [dot(A[i], yv) <= b[i] for i in range(m)])
+            s.check(IMPLIES(feas, sign * dot(c, yv) >= sign * res.objective - 1e-3), "ip.optimal_objective_matches_true_optimum")
         s.goal("ip.feasible_exit" if st == Status.FEASIBLE else "ip.optimal_exit")
         s.observe("x", x)
     else:
@@ -164,11 +237,9 @@ def items(tier, rng):
     for (m, n) in [(1, 1), (1, 2), (2, 1), (2, 2)]:
         for A in _mats(m, n, small if q else wide):
             cells.append(A)
-    if q:
-        cells = [A for A in cells if len(A) * len(A[0]) < 4] + rng.sample([A for A in cells if len(A) * len(A[0]) == 4], 40)
     extra = []
-    for (m, n, k) in [(2, 2, 30), (3, 2, 16), (2, 3, 16), (3, 3, 8)]:
-        for _ in range(k if q else 10 * k):
+    for (m, n, k) in ([(2, 2, 60), (3, 2, 40), (2, 3, 40), (3, 3, 12)] if q else [(2, 2, 300), (3, 2, 160), (2, 3, 160), (3, 3, 40)]):
+        for _ in range(k):
             extra.append([[rng.choice(wide) for _ in range(n)] for _ in range(m)])
     cgrid = (-1, 0, 1, 2)
     bgrid = (-2, -1, 0, 1, 3)
@@ -178,14 +249,12 @@ def items(tier, rng):
         bs = list(itertools.product(bgrid, repeat=m))
         kq = 2 if q else (len(cs) if n <= 2 else 8)
         for cvec in (rng.sample(cs, min(kq, len(cs)))):
-            mn = rng.random() < 0.5 if q else True
-            for minimize in ((mn,) if q else (True, False)):
+            for minimize in (True, False):
                 out.append({"name": "lp_b_%dx%d" % (m, n), "harness": "h_lp",
                             "params": {"A": A, "mode": "b", "fixed": list(cvec), "minimize": minimize}})
         kq = 2 if q else (len(bs) if m <= 2 else 8)
         for bvec in (rng.sample(bs, min(kq, len(bs)))):
-            mn = rng.random() < 0.5
-            for minimize in ((mn,) if q else (True, False)):
+            for minimize in (True, False):
                 out.append({"name": "lp_c_%dx%d" % (m, n), "harness": "h_lp",
                             "params": {"A": A, "mode": "c", "fixed": list(bvec), "minimize": minimize}})
     # max_iter limits
@@ -205,4 +274,6 @@ def items(tier, rng):
         for cvec in ([1] * n, [-1] * n, [1, -2][:n]):
             for minimize in (True, False):
                 out.append({"name": "ip_exit0", "harness": "h_ip", "params": {"A": A, "c": cvec, "minimize": minimize, "max_iter": 0}})
+                out.append({"name": "ip_exit1", "harness": "h_ip", "params": {"A": A, "c": cvec, "minimize": minimize, "max_iter": 1},
+                            "arith_solver": None, "query_timeout_ms": 20000})
     return out
